@@ -294,3 +294,9 @@ def run(ctx):
         ok = not missing
     ctx.check(ok, 'R03.4', 'forward/translation', fwd.where(0), fwd.path, 'geometric parameters %s do not influence the tool point computed by forward' % missing,
               detail='all of %s occur' % GEOM)
+    if ctx.pid == 'C03':
+        # "for the tool point and every link" is observed through whatever wraps the robot: how Tool / Base / Frame pass link
+        # poses and the flange pose on is C09's subject; its clauses are re-checked here (not when C03 itself is re-run by
+        # C01 / C02, which concern the bare solver)
+        from . import C09
+        C09.run(ctx)
